@@ -2,7 +2,7 @@ SPECIFICATION Spec
 CONSTANTS
   MaxNodes = 6
   Keys = {1, 2}
-  Leafs = {101, 160}
+  Leafs = {101, 160, 170}
   Shapes = {200, 211, 220}
   MaxLen = 2
   Acts = {"dict", "list", "flags", "scope"}
